@@ -21,7 +21,10 @@ RULE = ("dynamically generated families of SerializableEnum / Serializable class
         "implementation-only oracle streams: enums whose raw values are NOT ints (strings - also spelled like another member's "
         "name, lower-case, empty -, floats, mixed), in scalar fields, List/Set/Tuple elements, Dict keys and values; "
         "dumps(indent=, sort_keys=) variants; HISTORIES: the same object converted repeatedly in one process, the objects "
-        "returned by earlier fromJson calls scrambled in place between the calls, x itself must stay unchanged")
+        "returned by earlier fromJson calls scrambled in place between the calls, x itself must stay unchanged; IDENTIFICATION stream: "
+        "str / int values, set and list elements, dict keys and values drawn from one group of look-alike values at a time ('12' "
+        "'012' '+12' ' 12' '1_2' full-width digits; NFC / NFD / case / blank / zero-width variants of one text; '' vs blanks vs "
+        "'null'; 2^53 and 2^53+1, 2^63 and 2^63+1): every member is a value of its own and must come back exactly")
 ASSUMPTIONS = [
     "enum raw values are ints, member names are upper case (upper(name) = name) and distinct; attribute names of a class are distinct (wf_ctab)",
     "every field holds a value of its annotated type (ht_obj): container fields hold None or a container of the annotated shape, tuples have the annotated arity, dict keys are int/str/enum, floats are not NaN",
@@ -801,6 +804,7 @@ def run(run):
                     if nany % 4 == 0:
                         oracle_history(run, ci, x)
     run.count("objects_with_non_int_enums", nany)
+    identification_stream(run, scale)
 
     # ---------------- out-of-domain class tables + malformed values (toJson side)
     fams2 = [gen_family(rng, False) for _ in range(40 * scale)]
@@ -949,6 +953,61 @@ def run(run):
             run.nt(("int", s[:50]))
     run.exhaustive.append("enum/str.upper: none; int<->str: 4300-digit boundary both directions enumerated")
     run.rules.append(RULE)
+
+
+# values an implementation might IDENTIFY: strings that read as the same number / the same text after a canonicalisation
+# (they are different strings: different set elements, different dictionary keys), ints that coincide as floats
+IDENT_STR_GROUPS = [
+    ["12", "012", "+12", " 12", "12 ", "1_2", "\uff11\uff12", "12\n", "1e1", "12.0"],
+    ["1", "01", "1.0", "True", "true", "\u0661", "+1", "1 "],
+    ["\u00e9t\u00e9", "e\u0301te\u0301", "\u00c9T\u00c9", "ete", "\u00e9t\u00e9 ", "\ufeff\u00e9t\u00e9"],
+    ["RED", "red", "Red", "RED ", "\uff32\uff25\uff24", "R\u200bED", "\uff32ED"],
+    ["stra\u00dfe", "strasse", "STRASSE", "STRA\u1e9eE", "Stra\u00dfe"],
+    ["\ufb01", "fi", "FI", "\u212b", "\u00c5", "A\u030a"],
+    ["key", "Key", "KEY", "key\x00", "ke\u200dy", " key", "key "],
+    ["", " ", "\x00", "\u200b", "\ufeff", "\t", "\u00a0"],
+    ["null", "None", "NULL", "Null", "nul", "", "0", "false", "False"]]
+IDENT_INT_GROUPS = [[0, 1, -1, 2, 10, 12], [2 ** 53, 2 ** 53 + 1, 2 ** 53 - 1, -2 ** 53, -2 ** 53 - 1], [2 ** 63, 2 ** 63 + 1, 2 ** 64, 2 ** 64 + 1, -2 ** 63],
+                    [255, 256, -255, -256, 65535, 65536], [10 ** 17, 10 ** 17 + 1, 10 ** 30, 10 ** 30 + 1]]
+
+
+def identification_stream(run, scale):
+    """implementation-only oracle stream (in-domain classes and objects): str / int fields, list and set elements, dictionary
+    keys and values drawn from ONE group of look-alike values at a time, so that containers hold several members of a group;
+    the round trip must reproduce every one of them (a set keeps its size, a dict all its keys, each value its exact text)"""
+    global STRS, INTS
+    rng = run.rng
+    saved = (STRS, INTS)
+    n = 0
+    try:
+        for gi, grp in enumerate(IDENT_STR_GROUPS * scale):
+            STRS = grp
+            INTS = IDENT_INT_GROUPS[gi % len(IDENT_INT_GROUPS)]
+            for _ in range(12):
+                fam = gen_family(rng, True)
+                for ci in fam.classes:
+                    txt = json.dumps([enc_ty_names(t) for _n, t, a, d in ci.fields])
+                    if "str" not in txt and "int" not in txt:
+                        continue
+                    for k in range(4):
+                        x = gen_obj(rng, ci)
+                        oracle_one(run, ci, x, fam)
+                        n += 1
+                        if nontrivial_ident(x):
+                            run.nt(("ident", repr(describe(x))[:300]))
+                        if k == 0:
+                            oracle_history(run, ci, x)
+    finally:
+        STRS, INTS = saved
+    run.count("identification_objects", n)
+
+
+def nontrivial_ident(x):
+    for f in x._fields:
+        v = getattr(x, f)
+        if isinstance(v, (set, dict, list, tuple)) and len(v) >= 2:
+            return True
+    return False
 
 
 def gen_obj_loose(rng, ci, fam):
